@@ -93,7 +93,7 @@ def peel(t):
             return t
 
 
-VIEW_FNS = ('as_path', 'as_str', 'as_ref', 'as_slice', 'as_bytes', 'borrow', 'as_mut', 'as_os_str')
+VIEW_FNS = ('as_path', 'as_str', 'as_ref', 'as_slice', 'as_bytes', 'borrow', 'as_mut', 'as_os_str', 'as_deref', 'as_deref_mut')
 
 
 def deep_peel(t):
@@ -223,7 +223,7 @@ def result_cases(T, call_bb, subject=None):
                 if not contradiction:
                     out[cls].add(leaf)
 
-    oe = outcome_edges(T, call_bb) if call_bb is not None else {}
+    oe = first_outcome_edges(T, call_bb) if call_bb is not None else {}
     ok_e = set(s for (b, s), v in oe.items() if v == 'ok')
     err_e = set(s for (b, s), v in oe.items() if v == 'err')
     if ok_e and err_e:
@@ -330,10 +330,25 @@ def outcome_edges(T, call_bb):
 def outcomes(T, call_bb):
     """Blocks entered on the Ok/Some(Continue) and Err/None(Break) edges of the switches examining the result of the
     call in block call_bb. Returns (ok_entries, err_entries, switches)."""
-    oe = outcome_edges(T, call_bb)
+    oe = first_outcome_edges(T, call_bb)
     ok = set(s for (b, s), v in oe.items() if v == 'ok')
     err = set(s for (b, s), v in oe.items() if v == 'err')
     return ok, err, sorted(set(b for (b, s) in oe))
+
+
+def first_outcome_edges(T, call_bb):
+    """outcome_edges without the re-tests: a switch that is only reached through another outcome edge of the same call
+    (a drop-flag style second look at the same result after the arms have merged) tells nothing new, and its targets
+    are entered from both outcomes"""
+    oe = outcome_edges(T, call_bb)
+    body = T.body
+    srcs = set(b for (b, s) in oe)
+    later = set()
+    for sb in srcs:
+        others = [s for (b, s) in oe if b != sb]
+        if others and sb in reach(body, others) and not any(b in reach(body, [s for (b2, s) in oe if b2 == sb]) for b in srcs if b != sb):
+            later.add(sb)
+    return {k: v for k, v in oe.items() if k[0] not in later}
 
 
 def outcome_paths(T, call_bb, events, starts=None, unwind=False):
